@@ -89,7 +89,7 @@ def reference(chk, df, expo, weights, missing, miss_den, ipmw_in_use=None):
     if missing in ('model_stab', 'model_unstab'):
         dd = d0.copy()
         dd['M_'] = M
-        den = glm_fit('M_ ~ ' + miss_den, dd).predict(dd)
+        den = glm_fit('M_ ~ ' + miss_den, dd, w=dd['wt'] if weights else None).predict(dd)
         if missing == 'model_stab':
             num = glm_fit('M_ ~ A', dd, w=dd['wt'] if weights else None).predict(dd)
         else:
